@@ -579,6 +579,16 @@ func (vc *FnVC) doCall(ins ssa.Instruction, c *ssa.CallCommon, st *State) {
 			fc = vc.defaultFrameContract(fn)
 		}
 		vc.atCallObligations(fn, args, st)
+		vc.pendingVars = nil
+		if mc, ok := c.Value.(*ssa.MakeClosure); ok && fc != nil {
+			// a function literal called directly: its captured variables are the cells bound here
+			vc.pendingVars = map[string]Val{}
+			for i, b := range mc.Bindings {
+				if i < len(fn.FreeVars) {
+					vc.pendingVars["&"+fn.FreeVars[i].Name()] = vc.val(b)
+				}
+			}
+		}
 		if fn.String() == "errors.As" && len(c.Args) == 2 {
 			results = vc.doErrorsAs(c, st)
 		} else if fc == nil {
